@@ -480,7 +480,7 @@ Run(cx, st) == IF st.status # "run" THEN st ELSE Run(cx, Step(cx, st))
 \* that never fails: [status, out, err]
 Render(cx, nodes, env) ==
   LET fin == Run(cx, InitSt(nodes, env, Sink0, cx))
-  IN  [status |-> fin.status, out |-> fin.sink.acc, err |-> fin.err]
+  IN  [status |-> fin.status, out |-> fin.sink.acc, err |-> fin.err, env |-> fin.env]
 
 EnvOf(pairs) == [x \in {pairs[i][1] : i \in 1..Len(pairs)} |->
                    (LET i == CHOOSE i \in 1..Len(pairs) : pairs[i][1] = x IN pairs[i][2])]
